@@ -95,6 +95,9 @@ func Corpus() []NamedCase {
 			settings("S", 4, 100000), ack("C")}, true},
 		{"big-frames-both-directions", []Op{settings("C", 5, 65536), settings("S", 5, 65536), ack("S"), ack("C"),
 			hdr("C", 1, false, reqFields), data("C", 1, 40000, true), hdr("S", 1, false, respFields), data("S", 1, 50000, true)}, true},
+		{"header-table-size-above-64k", []Op{settings("S", 1, 1<<20), ack("C"), hdr("C", 1, true, reqFields),
+			settings("C", 1, 65537), ack("S"), hdr("S", 1, false, respFields), hdr("C", 3, true, reqFields),
+			settings("S", 1, 1<<24), ack("C"), hdr("C", 5, true, reqFields)}, true},
 		{"window-blocking", []Op{settings("S", 4, 10), ack("C"), hdr("C", 1, false, reqFields), data("C", 1, 25, true),
 			winupd("S", 1, 5), winupd("S", 1, 10), winupd("S", 0, 1)}, true},
 	}...)
